@@ -145,7 +145,7 @@ plan("C19", "exploration",
      [tbl("table", "TestC19", 16, "TABLE", wall=3000)],
      None, None, {"quick": {"exhaustive-sequences-x-capacity-x-backend": 100000}, "thorough": {"exhaustive-sequences-x-capacity-x-backend": 5000000}},
      rule="every sequence of <= 3 (quick) / <= 4 (thorough) operations over {StoreLogs of 1-3 entries (contiguous, gapped, overwriting), DeleteRange(a,b), GetLog, FirstIndex, LastIndex} on indexes 1..6, cache capacities 1-3, "
-          "6 backends (plain, InmemStore, 1st / 2nd StoreLogs or DeleteRange failing), plus seeded random sequences of 20-200 operations over indexes 1..40 and capacities 1-16; "
+          "8 backends (plain, InmemStore, 1st / 2nd StoreLogs or DeleteRange failing without effect, 1st / 2nd DeleteRange failing after removing half of the range), plus seeded random sequences of 20-200 operations over indexes 1..40 and capacities 1-16; "
           "LogCache(store) and an identical store alone must return the same values; distinct = sequences containing a store, and random cases containing reads")
 
 ASSUMPTIONS = {
